@@ -30,7 +30,7 @@ PROPERTY = 'C12'
 LEVEL = 'fault_enumeration'      # the solver enumerates a schedule / skeleton; the data of a path are concrete (DESIGN.md section 4)
 KINDS = ['pass', 'mismatch', 'exception', 'expected_exception', 'exit_test', 'all_skipped', 'import_failure',
          'system_exit', 'keyboard_interrupt']
-SIDE = ['print', 'nothing', 'replace_stdout', 'replace_and_close_stdout', 'alter_filters', 'await', 'print_then_replace']
+SIDE = ['print', 'nothing', 'replace_stdout', 'replace_and_close_stdout', 'alter_filters', 'await', 'print_then_replace', 'close_captured_stdout']
 BOUNDS = {'quick': 'k=2 parts, terminating part and kind symbolic (9 kinds), side effect of every part from a menu of 7, on_error return/raise; import: index in -2..2, path edit position 0..3',
           'thorough': 'k=3 parts'}
 OUTSIDE = 'what arbitrary doctest code may do to the process beyond the menu (threads, os.dup2, atexit handlers); real module import (import_module_from_name is a stub)'
@@ -80,6 +80,7 @@ class RunRestores(Harness):
         onraise = bool(SymBool(self.onraise))
         wrote = {}
         leaked = []
+        closed_capture = []
         P = m['doctest_part'].DoctestPart
         parts = []
         for i in range(K):
@@ -106,6 +107,9 @@ class RunRestores(Harness):
                     leaked.append(other)
                     if side == 'replace_and_close_stdout':
                         other.close()
+                if side == 'close_captured_stdout':
+                    sys.stdout.close()          # the doctest closes the stream it was given
+                    closed_capture.append(i)
                 if side == 'alter_filters':
                     warnings.simplefilter('error')
                     warnings.filterwarnings('ignore', message='xdv')
@@ -169,6 +173,8 @@ class RunRestores(Harness):
         # attribution of captured output
         ok = True
         for i, text in wrote.items():
+            if closed_capture:
+                break              # the capture stream itself was closed: what is logged afterwards is not specified
             if dt.logged_stdout.get(i) != text and not (i == f and kind in ('system_exit', 'keyboard_interrupt')):
                 ok = False
         props['logged_stdout_is_what_each_part_wrote'] = z3.BoolVal(ok)
@@ -179,6 +185,7 @@ class RunRestores(Harness):
         E.compile_hook = None
         b = m['doctest_example'].DocTest('', None, 'g', 0, 1, mode='native')
         b._parts = [P(['y = 1 #50#'], want_lines=['B'], line_offset=0, orig_lines=['>>> y = 1 #50#'], directives=[])]
+        sys.stdout = out0
         sb = b.run(verbose=0, on_error='return')
         props['next_doctest_unaffected'] = z3.BoolVal(sb['passed'] is True and b.logged_stdout.get(0) == 'B\n' and sys.stdout is out0)
         sys.stdout = out0
@@ -202,7 +209,7 @@ class RunRestores(Harness):
 
 
 class ImportRestores(Harness):
-    witnesses = ('import_raises', 'module_inserts_before', 'module_appends')
+    witnesses = ('import_raises', 'module_inserts_before', 'module_appends', 'import_exits')
 
     def __init__(self, job):
         from .common import instrumented
@@ -211,8 +218,8 @@ class ImportRestores(Harness):
         self.ui = util_import
         self.index = z3.Int('index')
         self.edit = z3.Int('module_path_edit')      # 0 none, 1 append, 2+p insert at p
-        self.raises = z3.Bool('import_raises')
-        self.base = [self.index >= -2, self.index <= 2, self.edit >= 0, self.edit <= 5]
+        self.raises = z3.Int('import_outcome')      # 0 returns, 1 ImportError, 2 SystemExit, 3 KeyboardInterrupt
+        self.base = [self.index >= -2, self.index <= 2, self.edit >= 0, self.edit <= 5, self.raises >= 0, self.raises <= 3]
         self.stubs = ['util_import.import_module_from_name -> returns a module / raises ImportError, optionally after adding an entry to sys.path',
                       'split_modpath / modpath_to_modname -> fixed answers for a path that does not exist on disk']
 
@@ -223,7 +230,7 @@ class ImportRestores(Harness):
         ui = self.ui
         index = int(SymInt(self.index))
         edit = int(SymInt(self.edit))
-        raises = bool(SymBool(self.raises))
+        raises = int(SymInt(self.raises))
         mod = types.ModuleType('xdv_c12_mod')
 
         def fake_import(modname):
@@ -231,8 +238,12 @@ class ImportRestores(Harness):
                 sys.path.append('/xdv/module/own/entry')
             elif edit >= 2:
                 sys.path.insert(min(edit - 2, len(sys.path)), '/xdv/module/own/entry')
-            if raises:
+            if raises == 1:
                 raise ImportError('cannot import ' + modname)
+            if raises == 2:
+                raise SystemExit(2)
+            if raises == 3:
+                raise KeyboardInterrupt()
             return mod
         ui.import_module_from_name = fake_import
         ui.split_modpath = lambda modpath, check=True: ('/xdv/tmp/dir', 'xdv_c12_mod.py')
@@ -242,17 +253,21 @@ class ImportRestores(Harness):
         try:
             r = ui._custom_import_modpath('/xdv/tmp/dir/xdv_c12_mod.py', index=index)
             outcome = 'returned' if r is mod else 'wrong module'
-        except Exception as e:
+        except BaseException as e:
+            if type(e).__module__.startswith('sea.'):
+                raise
             outcome = type(e).__name__
         after = list(sys.path)
         own = ['/xdv/module/own/entry'] if edit else []
         props = {'sys_path_keeps_its_entries': z3.BoolVal(sorted(after) == sorted(before + own) and '/xdv/tmp/dir' not in after)}
         if not edit:
             props['sys_path_identical'] = z3.BoolVal(after == before)
-        props['result'] = z3.BoolVal(outcome == ('RuntimeError' if raises else 'returned'))
+        props['result'] = z3.BoolVal(outcome == ['returned', 'RuntimeError', 'SystemExit', 'KeyboardInterrupt'][raises])
         sys.path[:] = before
         if raises:
             ex.witness('import_raises', True)
+        if raises >= 2:
+            ex.witness('import_exits', True)
         if edit >= 2:
             ex.witness('module_inserts_before', True)
         if edit == 1:
@@ -262,7 +277,7 @@ class ImportRestores(Harness):
     def describe(self, model):
         def n(v):
             return model.eval(v, model_completion=True).as_long()
-        return {'harness': 'imp', 'index': n(self.index), 'edit': n(self.edit), 'raises': z3.is_true(model.eval(self.raises, model_completion=True))}
+        return {'harness': 'imp', 'index': n(self.index), 'edit': n(self.edit), 'raises': n(self.raises)}
 
 
 def build(job):
@@ -289,7 +304,7 @@ def replay(job, cex):
             elif edit >= 2:
                 body += "sys.path.insert(min(%d, len(sys.path)), '/xdv/module/own/entry')\n" % (edit - 2)
             if cex['raises']:
-                body += "raise ImportError('broken module')\n"
+                body += ["", "raise ImportError('broken module')\n", "raise SystemExit(2)\n", "raise KeyboardInterrupt()\n"][int(cex['raises'])]
             path = os.path.join(d, 'xdv_c12_replay_mod.py')
             with open(path, 'w') as f:
                 f.write(body)
@@ -297,7 +312,7 @@ def replay(job, cex):
             try:
                 utils.import_module_from_path(path, index=cex['index'])
                 outcome = 'returned'
-            except Exception as e:
+            except BaseException as e:
                 outcome = type(e).__name__
             after = list(sys.path)
             own = ['/xdv/module/own/entry'] if edit else []
@@ -320,7 +335,8 @@ def replay(job, cex):
                 'replace_and_close_stdout': "import sys, io; sys.stdout = io.StringIO(); sys.stdout.close()",
                 'alter_filters': "import warnings; warnings.simplefilter('error')",
                 'await': "import asyncio; await asyncio.sleep(0)",
-                'print_then_replace': "print('P%d'); import sys, io; sys.stdout = io.StringIO()" % i}[side]
+                'print_then_replace': "print('P%d'); import sys, io; sys.stdout = io.StringIO()" % i,
+                'close_captured_stdout': "import sys; sys.stdout.close()"}[side]
         lines.append('>>> ' + stmt)
         if i == f:
             term = {'exception': "raise KeyError('boom')", 'expected_exception': "raise KeyError('boom')",
@@ -360,7 +376,7 @@ def replay(job, cex):
     sys.stdout, sys.stderr = out0, err0
     warnings.filters[:] = filt0
     # attribution: everything the executed statements printed is logged, once, in order
-    if kind not in ('system_exit', 'keyboard_interrupt', 'import_failure'):
+    if kind not in ('system_exit', 'keyboard_interrupt', 'import_failure') and 'close_captured_stdout' not in sides:
         exp = ''
         for i, side in enumerate(sides):
             if kind == 'all_skipped':
